@@ -61,6 +61,21 @@ func c07codec(c *an.Ctx) {
 	var wsegs []seg
 	hdrLen := int64(-1)
 	var writes []string // order of Write calls: "hdr", "ID", "Body"
+	classify := func(v ssa.Value) string {
+		a := an.Strip(v)
+		if sl, ok := a.(*ssa.Slice); ok {
+			if fa, ok := sl.X.(*ssa.FieldAddr); ok {
+				return an.FieldOf(fa).Name()
+			}
+			if _, ok := sl.X.(*ssa.Alloc); ok {
+				return "hdr"
+			}
+		}
+		if f, _ := an.LoadedField(a); f != nil {
+			return f.Name()
+		}
+		return "?"
+	}
 	an.Instrs(wr, func(in ssa.Instruction) {
 		call, ok := in.(*ssa.Call)
 		if !ok {
@@ -92,22 +107,15 @@ func c07codec(c *an.Ctx) {
 			}
 		}
 		if an.IsInvokeOf(call, "Writer", "Write") {
-			a := an.Strip(call.Call.Args[0])
-			if sl, ok := a.(*ssa.Slice); ok {
-				if fa, ok := sl.X.(*ssa.FieldAddr); ok {
-					writes = append(writes, an.FieldOf(fa).Name())
-					return
+			if elems := rangeLiteralElems(call.Call.Args[0]); elems != nil {
+				// `for _, part := range [...][]byte{hdr, id, body} { w.Write(part) }`: one Write per element, in order
+				for _, e := range elems {
+					writes = append(writes, classify(e))
 				}
-				if _, ok := sl.X.(*ssa.Alloc); ok {
-					writes = append(writes, "hdr")
-					return
-				}
-			}
-			if f, _ := an.LoadedField(a); f != nil {
-				writes = append(writes, f.Name())
 				return
 			}
-			writes = append(writes, "?")
+			writes = append(writes, classify(call.Call.Args[0]))
+			return
 		}
 	})
 	sort.Slice(wsegs, func(i, j int) bool { return wsegs[i].lo < wsegs[j].lo })
